@@ -477,7 +477,19 @@ def feasible(events):
   """Drop paths that need a local-name condition to be both true and false with no
   write to its names in between (the `if deadline: ... if deadline:` shape)."""
   facts = {}
+  consts = {}     # local name -> truth value of the constant last assigned to it
   for e in events:
+    if e.kind == 'stmt' and isinstance(e.node, ast.Assign) and len(e.node.targets) == 1 and isinstance(e.node.targets[0], ast.Name):
+      if isinstance(e.node.value, ast.Constant):
+        consts[e.node.targets[0].id] = bool(e.node.value.value)
+      else:
+        consts.pop(e.node.targets[0].id, None)
+    elif e.kind in ('stmt', 'for_iter', 'with_enter'):
+      for w in written_names(e.node):
+        consts.pop(w, None)
+    if e.kind == 'cond' and isinstance(e.node, ast.Name) and e.node.id in consts:
+      if consts[e.node.id] != e.info:
+        return False
     if e.kind == 'cond':
       if not _is_local_pure(e.node):
         continue
